@@ -48,6 +48,19 @@ def useful_rules(spec, limit=20000):
     return useful, explored
 
 
+def spec_all_matches(s):
+    """True when the manual's weaker promise applies: REJECT, or trailing context with variable head and trail
+    (a '|' action shared with a trailing-context rule counts as variable, as the manual says)."""
+    if 'reject' in s.tags:
+        return True
+    bar = any(r.fallthrough for r in s.rules)
+    for r in s.rules:
+        if r.trail is not None:
+            if bar or (P.fixed_length(r.head) is None and P.fixed_length(r.trail) is None):
+                return True
+    return False
+
+
 def spec_byte_reps(spec):
     """One representative byte per class of bytes that no pattern set separates."""
     if hasattr(spec, '_reps'):
@@ -77,7 +90,9 @@ def run(ctx):
         wd, g = E._prep(ctx, s, cfg, 'warn', extra_options=E.ALLOC_OPTS, keep_lines=False)
         if not common.gen_ok(ctx, g, s, cfg, 'warnings'):
             continue
-        if 'dangerous trailing context' in g.stderr or H.has_name(g, 'yy_acclist'):
+        # REJECT / variable trailing context is decided from the rule text by the independent parser,
+        # not from what flex generated (a generator that misclassifies a rule must not escape the exact check)
+        if 'dangerous trailing context' in g.stderr or spec_all_matches(s):
             # REJECT / variable trailing context: flex promises only that it gives no FALSE warning
             useful0, _ = useful_rules(s)
             if useful0 is not None:
@@ -188,7 +203,8 @@ def warn_jobs(ctx, spec, cfg, g, wd, rule, lengths, expect, nodefault=False, any
     jobs = []
     for n in lengths:
         src = os.path.join(wd, 'warn_r%d_n%d_%s.c' % (rule, n, expect[0]))
-        txt = H.e1_harness(g, cfg, spec, n, min(1, n), nodefault=nodefault, witness=rule)
+        k = 0 if ctx.tier == 'quick' else min(1, n)      # NUL budget of the inputs (quick: NUL-free inputs)
+        txt = H.e1_harness(g, cfg, spec, n, k, nodefault=nodefault, witness=rule)
         if expect == 'proved':
             txt = txt.replace('VP_ASSERT(!(VP_N > 0 && t == VP_WITNESS_RULE && tl == VP_N), "WITNESS: long token of chosen rule reachable");',
                               'VP_ASSERT(!(VP_N > 0 && t == VP_WITNESS_RULE), "a rule flex calls unmatchable is never selected");')
@@ -198,10 +214,14 @@ def warn_jobs(ctx, spec, cfg, g, wd, rule, lengths, expect, nodefault=False, any
         with open(src, 'w') as fh:
             fh.write(txt)
         prefix = 'warnw' if expect == 'witness' else 'warnp'
-        j = cbmc.Job('%s_%s_r%d_n%d' % (prefix, spec.name, rule, n), wd, [src], E.scanner_bounds(g, n, min(1, n)),
+        b = E.scanner_bounds(g, n, k)
+        # yy_scan_buffer source: no refill continues the scan, each NUL takes a NUL arm once, the end of the buffer is met once
+        b.update({'outer': 1, 'goto_match_cont': 1, 'goto_match_nul': 1 + k, 'goto_find_action_nul': 1 + k,
+                  'goto_find_action_last': 2, 'goto_do_action': 1})
+        j = cbmc.Job('%s_%s_r%d_n%d' % (prefix, spec.name, rule, n), wd, [src], b,
                      includes=[wd, H.HDIR], harness_bound=None, timeout=(240 if ctx.tier == 'quick' else 1200), mem_mb=10000,
                      gen_file=g.cpath, expect=expect,
-                     meta=dict(engine='E1', entry=spec.name, config=cfg.name, bound='len=%d' % n, flex_input=g.ltext, flex_args=g.args,
+                     meta=dict(engine='E1', entry=spec.name, config=cfg.name, bound='len=%d nul<=%d' % (n, k), flex_input=g.ltext, flex_args=g.args,
                                on_vacuous=lambda msg, ctx=ctx, spec=spec, rule=rule, g=g: ctx.violation(
                                    'warn_%s_rule%d_missing' % (spec.name, rule),
                                    'flex does not warn about rule %d but no input up to the bound selects it' % rule,
